@@ -195,3 +195,51 @@ claim(
     "literal-False cross entry, and that the Z3 checks do not depend on solver state.",
     "Trusted: that z3.simplify reaches `true` only for valid formulas. " + GENERIC_NOTE,
 )
+claim(
+    "C20",
+    "who-may-store (thread-local confinement), context-argument dependence, frozen shared-state list (AST)",
+    "Decides that every Z3 handle / conversion cache of the backends lives in per-thread storage, that every Z3 "
+    "entry point that cannot infer its context receives this thread's context (or an argument's), that process-wide "
+    "mutable objects are a classified list, and that a frontend's native solver lives in its own threading.local().",
+    "Not decided: answer equality under real scheduling, races inside Z3. " + GENERIC_NOTE,
+)
+claim(
+    "C21",
+    "finite-domain abstract interpretation of extracted fragments (orderings of four bounds; three-valued "
+    "booleans) + operator-delegation table + dependence (AST)",
+    "Decides soundness of the eight order comparisons for all inputs (the per-piece verdict is evaluated under "
+    "every weak ordering of the four bounds, aggregation over every verdict combination), soundness of the "
+    "three-valued connectives, the operator-to-transfer-function table (unary minus, shifts, order operators) and "
+    "that shift ranges depend on the shift amount only.",
+    "Assumes each piece returned by _signed_bounds/_unsigned_bounds has lb <= ub and covers the members. Not "
+    "decided: the numerics of add/sub/mul/div/mod/bitwise/shift/extend/extract/concat (the confirmed mod, "
+    "sign-bit-AND and wrapping-shift defects are arithmetic facts). " + GENERIC_NOTE,
+)
+claim(
+    "C23",
+    "sibling agreement between interval-set / value-set operators and the member operations they lift (AST)",
+    "Decides that reflected non-commutative operators do not compute the forward operation, that every "
+    "element-wise lifted operation names an existing member operation of the same arity and unary minus / "
+    "complement apply the member operator of the same meaning, and that value-set order comparisons answer Maybe "
+    "with != the complement of == and per-region arithmetic applied to every region.",
+    "Not decided: per-member numerics (inherited from C21), collapse/normalisation. " + GENERIC_NOTE,
+)
+claim(
+    "C24",
+    "dispatch-table agreement for the VSA backend + guard dominance on If/annotation/query handlers (AST)",
+    "Decides that the VSA column of the dispatch table sends every op to the transfer function of its meaning with "
+    "operands in order and leaves ops without VSA meaning unsupported, that If joins unless one branch is "
+    "impossible, that annotations become intervals with their own bounds at the object's width, that min/max fold "
+    "the right bounds by signedness, and that the light frontend only answers unsat on a definitely false constraint.",
+    "Not decided: numerics inherited from C21. " + GENERIC_NOTE,
+)
+claim(
+    "C25",
+    "table agreement and guard dominance in the balancer (AST)",
+    "Decides the comparison-info table and trivial assumptions, that less-than adds upper and greater-than lower "
+    "bounds with the strictness adjustment in the right direction and bounds accumulate by max/min and are "
+    "intersected, the De Morgan / single-disjunct unpacking rules, and that 'unsatisfiable' is reported only under "
+    "a definite test and only for the balancer's own unsat error.",
+    "Not decided: soundness of the balancing rules themselves (the confirmed x[3:0] >= 3 bound is a numeric fact). "
+    + GENERIC_NOTE,
+)
